@@ -472,51 +472,93 @@ Proof.
   cbn [repeat]. rewrite app_nil_r, zdrop_0, Z.sub_0_r. rewrite ztake_app_len. reflexivity.
 Qed.
 
-(* What Writer.Write produced for the row [fs] (followed by its newline and anything else, or
-   standing alone at EOF without the newline) is one record with exactly the fields [fs], and
-   $0 is the written text. *)
-Lemma scan_written_row fs s stale nz :
+(* A row text [W] that parse_field reads as the fields [fs] (followed by its newline and
+   anything else, or standing alone at EOF without the newline) is one record with exactly
+   those fields, and $0 is [W]. *)
+Lemma scan_written_text W fs s stale nz :
   c_comment c = 0 -> c_header c = false -> 0 <= nz ->
-  fs <> [] -> fs <> [[]] -> Forall (nob 13) fs ->
-  (st_noBOM s = true \/ prefix_of bom (encs fs ++ T) = false) ->
-  scan c s (encs fs ++ T) stale nz e =
-    (mkSt true (st_row s + 1), ORecord (zlen (encs fs) + zlen (fl1 T)) (encs fs) fs).
+  (exists x r, W = x :: r /\ x <> 10 /\ x <> 13) -> nob 13 W -> last_is 10 W = false ->
+  (forall adv done cr, exists n,
+     parse_field c e n (fl1 (W ++ T)) (fl2 (W ++ T)) adv done cr =
+     PDone (adv + zlen W + zlen (fl1 T)) (done ++ fs) cr) ->
+  (st_noBOM s = true \/ prefix_of bom (W ++ T) = false) ->
+  scan c s (W ++ T) stale nz e =
+    (mkSt true (st_row s + 1), ORecord (zlen W + zlen (fl1 T)) W fs).
 Proof.
-  intros Hcom Hhdr Hnz Hne Hne1 Hcr Hbom.
-  destruct (encs_head fs Hne Hne1 Hcr) as (x & r & Hx & X10 & X13).
-  pose proof (nob13_encs fs Hcr) as H13.
+  intros Hcom Hhdr Hnz (x & r & Hx & X10 & X13) H13 Hlast Hpf Hbom.
   unfold scan.
-  replace (negb (st_noBOM s) && prefix_of bom (encs fs ++ T)) with false
+  replace (negb (st_noBOM s) && prefix_of bom (W ++ T)) with false
     by (destruct Hbom as [-> | ->]; [reflexivity | rewrite andb_false_r; reflexivity]).
   cbv iota.
-  assert (Hdata : zlen (encs fs ++ T) =? 0 = false).
+  assert (Hdata : zlen (W ++ T) =? 0 = false).
   { rewrite Hx. cbn [app]. pose proof (zlen_pos_cons x (r ++ T)). lia. }
   rewrite Hdata, andb_false_r.
   (* first loop: the first line is neither a comment nor blank *)
   rewrite skip_lines_S. rewrite rl_stream by exact H13. cbv zeta.
-  assert (Hl : fl1 (encs fs ++ T) = x :: fl1 (r ++ T)) by (rewrite Hx; cbn [app]; apply fl1_cons; exact X10).
-  assert (Hz : zlen (fl1 (encs fs ++ T)) =? 0 = false)
+  assert (Hl : fl1 (W ++ T) = x :: fl1 (r ++ T)) by (rewrite Hx; cbn [app]; apply fl1_cons; exact X10).
+  assert (Hz : zlen (fl1 (W ++ T)) =? 0 = false)
     by (rewrite Hl; pose proof (zlen_pos_cons x (fl1 (r ++ T))); lia).
   rewrite Hz. rewrite Hcom. cbn [Z.eqb negb andb].
-  assert (Hb : zlen (fl1 (encs fs ++ T)) =? len_newline (fl1 (encs fs ++ T)) = false)
+  assert (Hb : zlen (fl1 (W ++ T)) =? len_newline (fl1 (W ++ T)) = false)
     by (rewrite Hl; pose proof (len_newline_head x (fl1 (r ++ T)) X10 X13); lia).
   rewrite Hb.
   (* the fields *)
-  destruct (pf_fields fs Hne Hcr (0 + 0) [] false) as [n Hn].
+  destruct (Hpf (0 + 0) [] false) as [n Hn].
   erewrite pf_at_fuel; [|exact Hn|discriminate|].
   2:{ rewrite <- app_length, fl_join. lia. }
   rewrite Hhdr, andb_false_r. cbn [app].
   (* $0 *)
   assert (HTsplit : T = fl1 T ++ fl2 T) by (symmetry; apply fl_join).
-  replace ((encs fs ++ T) ++ stale) with ((encs fs ++ fl1 T) ++ (fl2 T ++ stale))
+  replace ((W ++ T) ++ stale) with ((W ++ fl1 T) ++ (fl2 T ++ stale))
     by (rewrite HTsplit at 3; rewrite <- !app_assoc; reflexivity).
-  replace (0 + 0 + zlen (encs fs) + zlen (fl1 T)) with (zlen (encs fs ++ fl1 T)) by (zl; lia).
+  replace (0 + 0 + zlen W + zlen (fl1 T)) with (zlen (W ++ fl1 T)) by (zl; lia).
   rewrite slice_cap_prefix by exact Hnz.
   f_equal. f_equal; [zl; lia|].
   destruct tl_cases as [[-> _] | [-> _]].
   - rewrite len_newline_lf by exact H13. apply ztake_snoc.
-  - rewrite app_nil_r. rewrite len_newline_last by apply last_is_encs. rewrite Z.sub_0_r.
+  - rewrite app_nil_r. rewrite len_newline_last by exact Hlast. rewrite Z.sub_0_r.
     apply ztake_all. lia.
+Qed.
+
+(* the text interp.writeCSV produces for a row (without the newline) *)
+Definition rtext (fs : list bytes) : bytes := row_text (c_sep c) false fs.
+
+Lemma rtext_encs fs : fs <> [[]] -> rtext fs = encs fs.
+Proof.
+  intros H. unfold rtext, row_text. destruct fs as [|[|x f] [|g fs]]; try reflexivity. congruence.
+Qed.
+
+Lemma nob13_rtext fs : Forall (nob 13) fs -> nob 13 (rtext fs).
+Proof.
+  intros H. destruct (list_eq_dec (list_eq_dec Z.eq_dec) fs [[]]) as [-> | Hne1].
+  - repeat constructor; lia.
+  - rewrite rtext_encs by exact Hne1. apply nob13_encs. exact H.
+Qed.
+
+(* What writeCSV produced for the row [fs] is read as one record with exactly the fields
+   [fs], and $0 is the written text. *)
+Lemma scan_written_row fs s stale nz :
+  c_comment c = 0 -> c_header c = false -> 0 <= nz ->
+  fs <> [] -> Forall (nob 13) fs ->
+  (st_noBOM s = true \/ prefix_of bom (rtext fs ++ T) = false) ->
+  scan c s (rtext fs ++ T) stale nz e =
+    (mkSt true (st_row s + 1), ORecord (zlen (rtext fs) + zlen (fl1 T)) (rtext fs) fs).
+Proof.
+  intros Hcom Hhdr Hnz Hne Hcr Hbom.
+  destruct (list_eq_dec (list_eq_dec Z.eq_dec) fs [[]]) as [-> | Hne1].
+  - (* a single empty field: written as two quotes *)
+    change (rtext [[]]) with [34; 34] in *.
+    apply scan_written_text; auto.
+    + exists 34, [34]. repeat split; lia.
+    + repeat constructor; lia.
+    + intros adv done cr. destruct (pf_q_last [] adv done cr (nob_nil 13)) as [n Hn].
+      exists n. cbn [esc flat_map app] in Hn. cbn [app]. rewrite Hn. f_equal.
+  - rewrite rtext_encs in * by exact Hne1.
+    apply scan_written_text; auto.
+    + apply encs_head; assumption.
+    + apply nob13_encs; assumption.
+    + apply last_is_encs.
+    + intros adv done cr. apply pf_fields; assumption.
 Qed.
 
 End RoundTrip.
@@ -526,14 +568,14 @@ End RoundTrip.
    remaining data and atEOF = true); Proofs/CsvChunks.v shows that any delivery of the same
    bytes in pieces yields the same records. *)
 
-Definition row_ok (fs : list bytes) : Prop := fs <> [] /\ fs <> [[]] /\ Forall (nob 13) fs.
+Definition row_ok (fs : list bytes) : Prop := fs <> [] /\ Forall (nob 13) fs.
 
-Lemma join_fields_encs sep fs : valid_sep sep -> Forall (nob 13) fs ->
-  join_fields sep false fs = join_enc sep false fs.
+Lemma join_fields_text sep fs : valid_sep sep -> Forall (nob 13) fs ->
+  join_fields sep false fs = row_text sep false fs.
 Proof.
   intros Hv Hcr. unfold join_fields, write_record.
-  pose proof (nob13_encs (mkCfg sep 0 false) true Hv [] (or_intror (conj eq_refl eq_refl)) fs Hcr) as H13.
-  unfold encs in H13. cbn [c_sep] in H13.
+  pose proof (nob13_rtext (mkCfg sep 0 false) true Hv [] (or_intror (conj eq_refl eq_refl)) fs Hcr) as H13.
+  unfold rtext in H13. cbn [c_sep] in H13.
   rewrite len_newline_lf by exact H13. apply ztake_snoc.
 Qed.
 
@@ -551,20 +593,20 @@ Proof.
   intros Hv Hcom Hhdr. induction rows as [|fs rows IH]; intros Hok fuel s Hfuel Hbom.
   - destruct fuel as [|fuel]; [reflexivity|]. cbn [write_csv flat_map map read_all].
     unfold scan. cbn [prefix_of bom]. rewrite andb_false_r. reflexivity.
-  - inversion Hok as [|? ? (Hne & Hne1 & Hcr) Hok']; subst.
+  - inversion Hok as [|? ? (Hne & Hcr) Hok']; subst.
     destruct fuel as [|fuel]; [lia|]. rewrite write_csv_cons in *. cbn [map read_all].
     unfold write_record. rewrite <- !app_assoc. cbn [app].
-    change (join_enc (c_sep c) false fs) with (encs c fs).
+    change (row_text (c_sep c) false fs) with (rtext c fs).
     rewrite (scan_written_row c true Hv (10 :: write_csv (c_sep c) false rows)
-               ltac:(left; eauto) fs s [] 0 Hcom Hhdr ltac:(lia) Hne Hne1 Hcr).
+               ltac:(left; eauto) fs s [] 0 Hcom Hhdr ltac:(lia) Hne Hcr).
     2:{ destruct Hbom as [Hb | Hb]; [left; exact Hb | right].
         unfold write_record in Hb. rewrite <- app_assoc in Hb. exact Hb. }
     cbv beta iota.
-    unfold encs. rewrite join_fields_encs by assumption. f_equal.
-    replace (zlen (join_enc (c_sep c) false fs) + zlen (fl1 (10 :: write_csv (c_sep c) false rows)))
-      with (zlen (join_enc (c_sep c) false fs ++ [10])) by (unfold fl1; rewrite fl_nl; cbn [fst]; zl; lia).
-    replace (join_enc (c_sep c) false fs ++ 10 :: write_csv (c_sep c) false rows)
-      with ((join_enc (c_sep c) false fs ++ [10]) ++ write_csv (c_sep c) false rows)
+    unfold rtext. rewrite join_fields_text by assumption. f_equal.
+    replace (zlen (row_text (c_sep c) false fs) + zlen (fl1 (10 :: write_csv (c_sep c) false rows)))
+      with (zlen (row_text (c_sep c) false fs ++ [10])) by (unfold fl1; rewrite fl_nl; cbn [fst]; zl; lia).
+    replace (row_text (c_sep c) false fs ++ 10 :: write_csv (c_sep c) false rows)
+      with ((row_text (c_sep c) false fs ++ [10]) ++ write_csv (c_sep c) false rows)
       by (rewrite <- app_assoc; reflexivity).
     rewrite zdrop_app_len. apply IH; [exact Hok' | | left; reflexivity].
     unfold write_record in Hfuel. rewrite !app_length in Hfuel. cbn [length] in Hfuel. lia.
@@ -589,9 +631,9 @@ Theorem roundtrip_rebuilt c s fs stale nz :
     (mkSt true (st_row s + 1),
      ORecord (zlen (join_fields (c_sep c) false fs)) (join_fields (c_sep c) false fs) fs).
 Proof.
-  intros Hv Hcom Hhdr Hnz (Hne & Hne1 & Hcr) Hbom. rewrite join_fields_encs in * by assumption.
+  intros Hv Hcom Hhdr Hnz (Hne & Hcr) Hbom. rewrite join_fields_text in * by assumption.
   pose proof (scan_written_row c true Hv [] ltac:(right; split; reflexivity) fs s stale nz
-                Hcom Hhdr Hnz Hne Hne1 Hcr) as H.
-  unfold encs in H. rewrite app_nil_r in H. rewrite H by exact Hbom.
+                Hcom Hhdr Hnz Hne Hcr) as H.
+  unfold rtext in H. rewrite app_nil_r in H. rewrite H by exact Hbom.
   f_equal. f_equal. unfold fl1. cbn. lia.
 Qed.
